@@ -13,9 +13,10 @@ RULE = ('exhaustive enumeration of all 1312 (version, level, mask) triples (44 v
         'Golay(18,6) word, and the QRCode properties against what is in the matrix; distinct = decoded '
         '(version, level, mask, modes) tuples')
 ASSUMPTIONS = common.ASSUME_QR
-REQUIRED = ['evaluations', 'encode_observed', 'symbols_decoded', 'triples_seen', 'all_1312_triples_observed']
+REQUIRED = ['cases_under_python_O', 'clones_compared', 'evaluations', 'encode_observed', 'symbols_decoded', 'triples_seen', 'all_1312_triples_observed']
 EXHAUSTIVE = {'quick': '(version, level, mask) triples: 1312 of 1312', 'thorough': '(version, level, mask) triples: 1312 of 1312'}
 TIMEOUT = {'quick': 3600, 'thorough': 21600}
+OPT_SLICE = {'quick': 120, 'thorough': 1500}     # cases re-run by one more worker under python -O (core.run_sharded)
 
 
 def triples():
